@@ -635,6 +635,89 @@ def gen(ctx):
     return cases
 
 
+# ------------------------------------------------------------------ substitution-group members whose type differs in kind from the head's
+SUBST_XSD = ('<xs:schema xmlns:xs="http://www.w3.org/2001/XMLSchema" targetNamespace="%s" xmlns:t="%s" elementFormDefault="qualified">'
+             '<xs:simpleType name="ilist"><xs:list itemType="xs:int"/></xs:simpleType>'
+             '<xs:element name="hd" type="xs:anySimpleType"/><xs:element name="ml" type="t:ilist" substitutionGroup="t:hd"/>'
+             '<xs:element name="mi" type="xs:int" substitutionGroup="t:hd"/>'
+             '<xs:element name="hl" type="t:ilist"/><xs:element name="ms" substitutionGroup="t:hl"><xs:simpleType>'
+             '<xs:restriction base="t:ilist"><xs:maxLength value="2"/></xs:restriction></xs:simpleType></xs:element>'
+             '<xs:element name="root"><xs:complexType><xs:sequence><xs:element name="x" type="xs:string"/>'
+             '<xs:element ref="t:hd" minOccurs="0" maxOccurs="%s"/><xs:element ref="t:hl" minOccurs="0" maxOccurs="%s"/>'
+             '<xs:element name="y" type="xs:string" minOccurs="0"/></xs:sequence></xs:complexType></xs:element></xs:schema>')
+SUBST_CONV = ['default', 'default_root', 'default_cdata', 'default_opts', 'default_dict', 'jsonml', 'badgerfish', 'gdata', 'dataelement']
+
+
+def subject_subst(case):
+    import warnings
+    from xml.etree import ElementTree as ET
+    import xmlschema
+    warnings.simplefilter('ignore')
+    cls = xmlschema.XMLSchema11 if case['version'] == '1.1' else xmlschema.XMLSchema10
+    schema = cls(SUBST_XSD % (TNS, TNS, case['max'], case['max']))
+    xml = case['xml']
+    out = {'valid': schema.is_valid(xml), 'conv': {}}
+    if not out['valid']:
+        return out
+    want = [(c.tag, ' '.join((c.text or '').split())) for c in ET.fromstring(xml)]
+    for cname in SUBST_CONV:
+        clsname, kw = CONVERTERS[cname]
+        conv = getattr(xmlschema, clsname)
+        r = {}
+        try:
+            data = schema.decode(xml, converter=conv, **kw)
+            elem = schema.encode(data, path='{%s}root' % TNS, converter=conv, **kw)
+            got = [(c.tag, ' '.join((c.text or '').split())) for c in elem]
+            r['children_equal'] = got == want
+            r['got'] = [[t.split('}')[-1], v] for t, v in got]
+            r['revalid'] = schema.is_valid(elem)
+            text = xmlschema.etree_tostring(elem, namespaces={'t': TNS})      # (the prefixes of the original document)
+            r['redecode_equal'] = canon(schema.decode(text, converter=conv, **kw)) == canon(data) if cname != 'dataelement' else True
+        except Exception as e:  # noqa
+            r['exc'] = common.exc_class(e) + ': ' + ' '.join(str(e).split())[:160]
+        out['conv'][cname] = r
+    return out
+
+
+def check_subst(ctx):
+    rng = ctx.rng
+    cases = []
+    pool = [('hd', 'abc'), ('ml', '1 2 3'), ('ml', '7'), ('mi', '5'), ('hl', '4 5'), ('ms', '8 9'), ('ml', '10  20')]
+    for version in ('1.0', '1.1'):
+        for mx in ('1', '3'):
+            for _ in range(6 if ctx.quick() else 60):
+                k = 1 if mx == '1' else rng.randint(1, 3)
+                heads = [rng.choice([p for p in pool if p[0] in ('hd', 'ml', 'mi')]) for _ in range(rng.randint(0, k))]
+                lists = [rng.choice([p for p in pool if p[0] in ('hl', 'ms')]) for _ in range(rng.randint(0, k))]
+                if mx == '3':
+                    # same-named children contiguous (the statement's condition for the dictionary conventions)
+                    heads.sort(key=lambda p: p[0])
+                    lists.sort(key=lambda p: p[0])
+                body = '<t:x>s</t:x>' + ''.join('<t:%s>%s</t:%s>' % (t, v, t) for t, v in heads + lists) + ('<t:y>e</t:y>' if rng.random() < 0.5 else '')
+                cases.append({'version': version, 'max': mx, 'xml': '<t:root xmlns:t="%s">%s</t:root>' % (TNS, body)})
+    impl = common.pool_map(subject_subst, cases)
+    for c, o in zip(cases, impl):
+        rep = {'kind': 'subst', 'case': c, 'xsd': SUBST_XSD % (TNS, TNS, c['max'], c['max'])}
+        if 'harness_exception' in o or not o.get('valid'):
+            ctx.violation('substitution family: %s' % (o.get('harness_exception') or 'the generated instance is not valid: ' + c['xml']), rep, no_input=True)
+            continue
+        for cname, r in o['conv'].items():
+            ctx.count(('subst', c['version'], c['max'], c['xml'], cname), nontrivial=True)
+            ctx.dist('round trips', '%s substitution members' % cname)
+            bad = None
+            if 'exc' in r:
+                bad = 'decode / encode raised %s' % r['exc']
+            elif not r['revalid']:
+                bad = 'the encoded XML is not valid: children %s' % r['got']
+            elif not r['children_equal']:
+                bad = 'the encoded XML has the children %s' % r['got']
+            elif not r['redecode_equal']:
+                bad = 'the encoded XML decodes to different data'
+            if bad:
+                ctx.violation('%s converter, XSD %s, substitution-group members (list-typed member of a head that is not a list, maxOccurs=%s) %s: %s'
+                              % (cname, c['version'], c['max'], c['xml'], bad), dict(rep, converter=cname, result=r))
+
+
 def run(ctx):
     ctx.rule = ('seeded schemas (nested complex types to depth 3, sequence / repeated choice, attributes, simple content with attributes, '
                 'mixed content, int / decimal / boolean / date / string / NMTOKEN / list / union / restricted bases, qualified and '
@@ -643,9 +726,13 @@ def run(ctx):
                 'decoded data for strict encode; evaluations = round trips + strict encodes; non-trivial = round trips the property '
                 'statement covers (contiguous same-named children for the dictionary conventions)')
     evaluate(ctx, gen(ctx))
+    check_subst(ctx)
     ctx.assumptions = ['PARTIAL: encoder soundness (validity of the encoder output for arbitrary data) is explored with mutated data, not proved',
                        'the converter algebra is proved for the modelled conventions; option handling and name mapping are exercised, not modelled']
 
 
 def replay(ctx, case):
-    evaluate(ctx, [case['case']])
+    if case.get('kind') == 'subst':
+        check_subst(ctx)
+    else:
+        evaluate(ctx, [case['case']])
